@@ -49,17 +49,19 @@ class Check(core.CheckBase):
         self.allowed = pipeline.parse_errors()
         self.corpus = pipeline.corpus_by_class()
         self.classes = inventory.parsable_classes(concrete_only=False)
+        self.originals = {}
 
     def values_of(self, name):
         """Distinct canonical spellings of the corpus values of a type."""
         cls = self.classes.get(name)
         canon = []
-        for data in self.corpus.get(name, []):
+        for data in list(self.corpus.get(name, [])) + [text.encode('ascii') for text in spelling.EXTRA_VALUES.get(name, ())]:
             try:
                 obj, consumed = cls.parse_immutable(data)
                 composed = bytes(obj.compose())
                 if consumed == len(data) and composed not in canon:
                     canon.append(composed)
+                    self.originals[(name, composed)] = data
             except Exception:  # pylint: disable=broad-except
                 continue
         return canon
@@ -162,6 +164,14 @@ class Check(core.CheckBase):
                                         'the canonical spelling %r produced by compose is not accepted (%s)' % (canon[:80], reference[1]),
                                         case))
             return found
+        # the canonical spelling is itself one of the variants: it must parse to what the accepted spelling it was made from parses to
+        original = self.originals.get((name, canon))
+        if original is not None and original != canon:
+            self.stats['canonical_vs_original'] += 1
+            if self.parse_state(name, cls, original) != reference:
+                found.append(self.violation('canonical-differs|%s' % short,
+                                            '%s: the canonical spelling %r parses differently from %r which it was composed from' % (
+                                                short, canon[:100], original[:100]), case))
         rng = random.Random('C18/%s/%s/%s' % (self.seed, name, case['number']))
         if 'text' in case:
             stream = [(tuple(case['used']), case['text'])]
